@@ -6,6 +6,7 @@ import (
 	"os"
 	"path/filepath"
 	"strings"
+	"syscall"
 
 	"verif/sim"
 )
@@ -358,8 +359,30 @@ func C20Case(r *Runner, base string, tape *sim.Tape) *Outcome {
 	// tier): one write to a file fails (ENOSPC) so that the command's restore path runs, and
 	// the process is killed at every boundary of THAT run: the backup must stay safe while it
 	// is being put back.
-	if sawRename && (os.Getenv("VERIF_TIER") == "thorough" || tape.Draw(4) == 0) {
-		inj := []*Inject{{Kind: "write", PathRe: "^[^<]", Nth: 0, Times: -1, Errno: 28}}
+	// Which operation fails: every write (ENOSPC: the restore path), or the rename that makes
+	// the backup (EBUSY, a bind-mounted file; EXDEV; EACCES): an implementation that falls back
+	// to something else when the backup cannot be made is killed inside that fallback.
+	type injSpec struct {
+		name string
+		inj  Inject
+		fire string
+	}
+	specs := []injSpec{
+		{"write-fails", Inject{Kind: "write", PathRe: "^[^<]", Nth: 0, Times: -1, Errno: 28}, "write:no space left on device"},
+		{"rename-busy", Inject{Kind: "rename", PathRe: ".", Nth: 0, Times: -1, Errno: 16}, "rename:device or resource busy"},
+		{"rename-exdev", Inject{Kind: "rename", PathRe: ".", Nth: 0, Times: -1, Errno: 18}, "rename:invalid cross-device link"},
+		{"rename-eacces", Inject{Kind: "rename", PathRe: ".", Nth: 0, Times: -1, Errno: 13}, "rename:permission denied"},
+	}
+	pick := tape.Draw(4 * len(specs))
+	for si, spec := range specs {
+		if !sawRename {
+			break
+		}
+		if os.Getenv("VERIF_TIER") != "thorough" && pick != si {
+			continue // quick: one scenario in four, one of the injections
+		}
+		spec := spec
+		inj := []*Inject{{Kind: spec.inj.Kind, PathRe: spec.inj.PathRe, Nth: 0, Times: -1, Errno: spec.inj.Errno}}
 		if err := fresh(); err != nil {
 			out.Infra = "materialise: " + err.Error()
 			return out
@@ -371,8 +394,8 @@ func C20Case(r *Runner, base string, tape *sim.Tape) *Outcome {
 			out.Infra = err.Error()
 			return out
 		}
-		if ef.Res != nil && ef.Res.Fired["write:no space left on device"] > 0 {
-			out.stat("scenarios_with_failing_write_enumerated", 1)
+		if ef.Res != nil && ef.Res.Fired[spec.fire] > 0 {
+			out.stat("scenarios_with_"+spec.name+"_enumerated", 1)
 			K2 := len(ef.Trace)
 			for k := 1; k <= K2; k++ {
 				if !Mutating(ef.Trace[k-1].Kind) && ef.Trace[k-1].Err == "" {
@@ -384,11 +407,11 @@ func C20Case(r *Runner, base string, tape *sim.Tape) *Outcome {
 				}
 				p := plan()
 				p.Inject = inj
-				at := "write-fails,after-" + ef.Trace[k-1].Kind
+				at := spec.name + ",after-" + ef.Trace[k-1].Kind
 				if k < K2 {
 					p.CrashAt = k
 				} else {
-					at = "write-fails,end"
+					at = spec.name + ",end"
 				}
 				co, err := r.Run(work, c.Inv, p)
 				if err != nil {
@@ -396,9 +419,9 @@ func C20Case(r *Runner, base string, tape *sim.Tape) *Outcome {
 					return out
 				}
 				images++
-				out.stat("fault_sigkill_during_restore_path", 1)
+				out.stat("fault_sigkill_while_"+spec.name, 1)
 				if v := judgeCrashImage(c, ex, root, at); v != nil {
-					v.Detail += fmt.Sprintf(" [every write fails with ENOSPC; killed before operation %d of %d; last operations: %s; args=%v; tree=%s]", k, K2, lastOps(ef.Trace, k, 6), c.Inv.Args(), DescribeTree(c.Tree))
+					v.Detail += fmt.Sprintf(" [every %s fails with %s; killed before operation %d of %d; last operations: %s; args=%v; tree=%s]", spec.inj.Kind, syscall.Errno(spec.inj.Errno), k, K2, lastOps(ef.Trace, k, 6), c.Inv.Args(), DescribeTree(c.Tree))
 					out.V = v
 					return out
 				} else if k < K2 && !co.Killed {
